@@ -48,3 +48,33 @@ def innermost_repo_frame(exc):
 
 def dense(m):
     return np.asarray(m.toarray() if hasattr(m, "toarray") else m)
+
+
+def snapshot(obj):
+    """An independent copy of a getter result (sparse matrix, array or list) for judging."""
+    if hasattr(obj, "nnz") and hasattr(obj, "copy"):
+        return obj.copy()
+    if isinstance(obj, np.ndarray):
+        return obj.copy()
+    if isinstance(obj, (list, tuple)):
+        return np.array(obj)
+    return obj
+
+
+def scribble(obj):
+    """In-place edits a caller may make to an object it was handed (unit conversion, masking). A getter result belongs
+    to the caller: editing it must not change what the library reports afterwards."""
+    try:
+        target = obj.data if (hasattr(obj, "nnz") and hasattr(obj, "data")) else obj
+        if isinstance(target, np.ndarray) and target.flags.writeable and target.size:
+            if target.dtype == bool:
+                target[...] = False
+            elif np.issubdtype(target.dtype, np.floating):
+                target *= 57.29577951308232
+            elif np.issubdtype(target.dtype, np.integer):
+                target *= 3
+        elif isinstance(target, list) and target:
+            target[0] = target[-1]
+            target.reverse()
+    except Exception:
+        pass
